@@ -113,7 +113,11 @@ package util
 //@   trusted "pure"
 //@ extern func os.Stat(name string) (info fs.FileInfo, err error)
 //@   ensures (err == nil) == (info != nil)
-//@   trusted "os.Stat returns exactly one of FileInfo / error"
+//@   ensures (err == nil) == (name in statOK)
+//@   ensures err != nil ==> (ref(err) in errNotExist) == (name in statMissing)
+//@   ensures err == nil ==> fiPath[ref(info)] == name && fresh(ref(info))
+//@   ensures err != nil ==> fresh(ref(err))
+//@   trusted "os.Stat returns exactly one of FileInfo / error; the FileInfo describes the named file; failures other than not-exist are possible"
 
 //@ opaque func ReadIntFromFile
 //@   ensures err == nil ==> value == fileInt[path]
@@ -130,10 +134,7 @@ package util
 //@   modifies fileInt
 //@   trusted "I/O model as WriteIntToFile"
 
-//@ opaque func SafeCmdExecution
-//@   ensures result1 != nil ==> result0 == ""
-//@   modifies procWorld
-//@   trusted "PLACEHOLDER until the body is under contract (C18/C19)"
+
 
 //@ extern func sort.Ints(x []int)
 //@   ensures forall i, j :: 0 <= i && i < j && j < len(x) ==> x[i] <= x[j]
@@ -183,3 +184,73 @@ package util
 //@   effectfree
 //@   trusted "pure predicate on error chains"
 //@ sentinel os.ErrPermission os.ErrNotExist os.ErrInvalid os.ErrExist context.DeadlineExceeded context.Canceled
+
+// ---- file metadata and process model (C18, C19) ---------------------------------------------------
+//@ ghost var resolveOK gset[string]
+//@ ghost var resolvedPath gmap[string]string
+//@ ghost var statOK gset[string]
+//@ ghost var statMissing gset[string]
+//@ ghost var statUid gmap[string]int
+//@ ghost var statGid gmap[string]int
+//@ ghost var statMode gmap[string]int
+//@ ghost var fiPath gmap[int]string
+//@ ghost var errNotExist gset[int]
+//@ ghost var started gmap[string]int
+//@ ghost var ctxDeadline gset[int]
+
+//@ extern func path/filepath.EvalSymlinks(path string) (r string, err error)
+//@   ensures (err == nil) == (path in resolveOK)
+//@   ensures err == nil ==> r == resolvedPath[path]
+//@   trusted "file-system model: symlink resolution succeeds or fails; the result is the resolved path"
+//@ extern func os.IsNotExist(err error) (b bool)
+//@   effectfree
+//@   ensures b == (err != nil && ref(err) in errNotExist)
+//@   trusted "pure predicate on the error value"
+//@ iface (fi io/fs.FileInfo).Sys() (r any)
+//@   ensures r is *syscall.Stat_t && r.(*syscall.Stat_t) != nil
+//@   ensures r.(*syscall.Stat_t).Uid == statUid[fiPath[ref(fi)]] && r.(*syscall.Stat_t).Gid == statGid[fiPath[ref(fi)]]
+//@   trusted "on Linux the Sys() of a FileInfo returned by os.Stat is a *syscall.Stat_t describing that file"
+//@ iface (fi io/fs.FileInfo).Mode() (m io/fs.FileMode)
+//@   ensures m == statMode[fiPath[ref(fi)]]
+//@   trusted "mode bits of the file the FileInfo describes"
+
+//@ pure permOK(p string) bool = statUid[p] == 0 && (statGid[p] == 0 || statMode[p] & 16 == 0) && statMode[p] & 2 == 0
+
+//@ func CheckFilePermissionsForExecution
+//@   props C18 C19
+//@   returns (ok, err)
+//@   ensures[C18.iff]   (err == nil) == (filePath in resolveOK && resolvedPath[filePath] in statOK && permOK(resolvedPath[filePath]))
+//@   ensures[C18.flag]  ok == (err == nil)
+//@   modifies nothing
+
+//@ extern func context.Background() (ctx context.Context)
+//@   ensures ctx != nil
+//@   trusted "context.Background is non-nil"
+//@ extern func context.WithTimeout(parent context.Context, d time.Duration) (ctx context.Context, cancel context.CancelFunc)
+//@   ensures ctx != nil && cancel != nil && ref(ctx) in ctxDeadline
+//@   trusted "WithTimeout returns a context carrying a deadline"
+//@ extern func context.CancelFunc()
+//@   effectfree
+//@   trusted "cancelling has no effect on verified state"
+//@ iface (ctx context.Context).Err() (err error)
+//@   trusted "any error or nil"
+//@ extern func os/exec.CommandContext(ctx context.Context, name string, arg []string) (cmd *exec.Cmd)
+//@   ensures cmd != nil && fresh(cmd) && cmd.WaitDelay == 0 && cmdName[ref(cmd)] == name && (cmdBounded[ref(cmd)] == (ref(ctx) in ctxDeadline))
+//@   trusted "CommandContext returns a fresh Cmd bound to the context; WaitDelay is zero until set"
+//@ ghost var cmdName gmap[int]string
+//@ ghost var cmdBounded gset[int]
+//@ extern func (c *os/exec.Cmd).Output() (out []byte, err error)
+//@   requires[C19.killable] ref(c) in cmdBounded
+//@   requires[C19.waitdelay] c.WaitDelay > 0
+//@   ensures started == old(started)[cmdName[ref(c)] := old(started)[cmdName[ref(c)]] + 1]
+//@   ensures err is *exec.ExitError ==> err.(*exec.ExitError) != nil
+//@   modifies started, procWorld
+//@   trusted "os/exec: Output starts the process; the error may be of any dynamic type (*exec.ExitError, *exec.Error, *fs.PathError, context errors); it returns within deadline+WaitDelay only if the context has a deadline and WaitDelay > 0 (documented: with WaitDelay zero, Output waits until orphaned descendants close the pipes)"
+
+//@ func SafeCmdExecution
+//@   props C18 C19
+//@   returns (out, err)
+//@   ensures[C18.gate]     started[executable] != old(started)[executable] ==> executable in resolveOK && resolvedPath[executable] in statOK && permOK(resolvedPath[executable])
+//@   ensures[C18.refuse]   !(executable in resolveOK && resolvedPath[executable] in statOK && permOK(resolvedPath[executable])) ==> err != nil && started == old(started)
+//@   ensures[C19.shape]    err != nil ==> out == ""
+//@   modifies started, procWorld
